@@ -774,6 +774,19 @@ ECHOFORM_WITNESS = {
 PROPERTIES["C15"]["rules"] += [("ECHOFORM", lambda ctx: nbt_rules.rule_echoform(ctx.nbt, _prefixes(ctx), ctx.lib, ECHOFORM_WITNESS))]
 PROPERTIES["C15"]["explanation"] += " (ECHOFORM) The (prefix spelling, name field) the typed printer emits for a prefixed unit is compared, for every prefixable unit of the standard library, with the prefix forms that name accepts (two known findings: bps, LOC accept only short prefixes)."
 
+from poporder import rule_poporder  # noqa: E402
+
+PROPERTIES["C09"]["rules"] += [("POPORDER", lambda ctx: rule_poporder(ctx.lib))]
+PROPERTIES["C09"]["explanation"] += " (POPORDER) Every pop-loop of the VM (call arguments by name and through function values, list elements, string parts, struct fields) restores the source order exactly when the compile site that emits the instruction did not reverse the operands, and walks per-argument metadata in the direction of the popped values."
+
+from tryconv import rule_tryconv  # noqa: E402
+
+TRYCONV_EXEMPT = {
+    "command::CommandParser::new": "the converted value is a byte offset inside ONE line handed to the command parser; it exceeds u32 only for a single line of 4 GiB or more",
+}
+PROPERTIES["C08"]["rules"] += [("TRYCONV", lambda ctx: rule_tryconv(ctx.lib, TRYCONV_EXEMPT))]
+PROPERTIES["C08"]["explanation"] += " (TRYCONV) Every integer TryFrom/TryInto conversion in the library is propagated, applied to a constant, or applied to a value clamped to a constant bound (one exempt function with its bound argument): none is an unwrap of an input-dependent value — this includes the code that renders failures."
+
 NOT_APPLICABLE = {
     "C03": "numerical agreement of conversion factors over 500 units is a statement about run-time values; no structural clause is a necessary condition that is not already covered under C04/C11/C12 (static analysis cannot bound the arithmetic)",
     "C14": "a statement about the decimal rendering of every f64 under every format setting; the code delegates to pretty_dtoa/num_format and no structural clause of Number::pretty_print_with_dtoa_config can be decided without evaluating it",
